@@ -1,7 +1,7 @@
 (* Property C12 — PES headers and timestamps per ISO 13818-1 2.4.3.6-7 (theorems only; proofs in Proofs/). *)
 From Coq Require Import ZArith List.
 Require Import Base.Bits Base.Iter Base.Wr Gen.Consts Gen.Types Gen.Preds Model.Clock Model.Pes Spec.PesSpec
-  Proofs.ClockProofs Proofs.PesProofs Proofs.PesRoundTrip.
+  Proofs.ClockProofs Proofs.PesProofs Proofs.PesRoundTrip Proofs.PesParseRef.
 Import ListNotations.
 Open Scope Z_scope.
 
@@ -90,3 +90,56 @@ Theorem C12_header_data_length : forall h, wf_opt h ->
   calcPESOptionalHeaderDataLength h = ref_header_data_length h /\ 0 <= ref_header_data_length h <= 170.
 Proof. intros h W. split; [apply calc_len_eq | apply ref_len_range]; exact W. Qed.
 Print Assumptions C12_header_data_length.
+
+(* decoding, full strength: parsePESData on the ISO 13818-1 reference encoding (Spec.PesSpec.ref_pes_bytes, written as
+   (width, value) fields from 2.4.3.6) of ANY well-formed header (Spec.PesSpec.wf_all) returns every field - including
+   the parts the library cannot write: any 16-bit previous_PES_packet_CRC, a pack_header_field with its pack header
+   bytes, and any number of stuffing bytes that PES_header_data_length can express - for every stream id the library
+   gives an optional header, every PES_packet_length L and anything behind the header:
+   L = 0: all the bytes behind the header; L > 0: exactly L - (3 + PES_header_data_length) bytes; an error when L ends
+   inside the header or beyond the available bytes. *)
+Theorem C12_parse_ref : forall sid L h pack st rest,
+  0 <= sid < 256 -> 0 <= L < 65536 -> lib_has_optional_header sid = true -> wf_all h pack st ->
+  let bs := ref_pes_bytes sid L h pack st ++ rest in
+  let H := {| PESHeader_OptionalHeader := Some (observed_all h st); PESHeader_PacketLength := L; PESHeader_StreamID := sid |} in
+  let hdr := 3 + ref_header_data_length_all h + Z.of_nat st in
+  (L = 0 -> parse_pes_data_bytes bs = Ok {| PESData_Data := rest; PESData_Header := Some H |}) /\
+  (L > 0 -> hdr <= L -> L - hdr <= Z.of_nat (length rest) ->
+     parse_pes_data_bytes bs = Ok {| PESData_Data := firstn (Z.to_nat (L - hdr)) rest; PESData_Header := Some H |}) /\
+  (L > 0 -> L < hdr \/ Z.of_nat (length rest) < L - hdr -> parse_pes_data_bytes bs = Err E_generic).
+Proof. exact parse_ref. Qed.
+Print Assumptions C12_parse_ref.
+
+(* the same for the stream ids without optional header (padding_stream 0xBE, private_stream_2 0xBF) *)
+Theorem C12_parse_ref_noopt : forall sid L rest,
+  0 <= sid < 256 -> 0 <= L < 65536 -> lib_has_optional_header sid = false ->
+  let bs := ref_pes_bytes_noopt sid L ++ rest in
+  let H := {| PESHeader_OptionalHeader := None; PESHeader_PacketLength := L; PESHeader_StreamID := sid |} in
+  (L = 0 -> parse_pes_data_bytes bs = Ok {| PESData_Data := rest; PESData_Header := Some H |}) /\
+  (L > 0 -> L <= Z.of_nat (length rest) ->
+     parse_pes_data_bytes bs = Ok {| PESData_Data := firstn (Z.to_nat L) rest; PESData_Header := Some H |}) /\
+  (L > 0 -> Z.of_nat (length rest) < L -> parse_pes_data_bytes bs = Err E_generic).
+Proof. exact parse_ref_noopt. Qed.
+Print Assumptions C12_parse_ref_noopt.
+
+(* encoding: for every writable optional header writePESOptionalHeader emits exactly the reference encoding
+   (no pack header, no stuffing), bit for bit, and reports its length *)
+Theorem C12_write_ref : forall h, wf_opt h ->
+  exists its n, enc_pes_optional_header h = Ok (its, n) /\
+    bytes_of_items its = ref_opt_bytes h [] 0 /\ n = Z.of_nat (length (ref_opt_bytes h [] 0)).
+Proof. exact write_ref. Qed.
+Print Assumptions C12_write_ref.
+
+(* ... and writePESHeader emits the reference encoding of the whole packet header: start code prefix, stream id,
+   PES_packet_length by the length rule, then (for ids with an optional header) the optional header *)
+Theorem C12_write_ref_header : forall h n, wf_header h -> 0 <= n ->
+  let sid := PESHeader_StreamID h in
+  let L := ref_packet_length sid (ref_opt_len h) n in
+  exists its k, enc_pes_header h n = Ok (its, k) /\ k = Z.of_nat (length (bytes_of_items its)) /\
+    bytes_of_items its =
+      match PESHeader_OptionalHeader h with
+      | Some oh => if lib_has_optional_header sid then ref_pes_bytes sid L oh [] 0 else ref_pes_bytes_noopt sid L
+      | None => ref_pes_bytes_noopt sid L
+      end.
+Proof. exact write_ref_header. Qed.
+Print Assumptions C12_write_ref_header.
